@@ -208,6 +208,15 @@ def task_mixed(maxlen, passes):
                     r = CASES[entry](acc, variant, segs)
                     if r is not None:
                         states.add(r)
+                if n <= 3:
+                    # right after the merging entry points handled `segs` on their bases, the other entry points get the very paths
+                    # those merges produced (same segment lists, before any bounded cache can forget them)
+                    for prefix in (("", "a"), ("", "r", "s")):
+                        merged = prefix + segs
+                        for entry, variant in (("ctor", "auth"), ("ctor", "netpath"), ("build", True)):
+                            r = CASES[entry](acc, variant, merged)
+                            if r is not None:
+                                states.add(r)
     acc.state_count = len(states)
     acc.nontrivial = acc.evals
     acc.sample({"mixed_history": "all entry points per segment sequence, %d passes in one process" % passes, "kinds": kinds, "max_segments": maxlen}, 1)
